@@ -153,8 +153,8 @@ pub fn plan(quick: bool) -> PairPlan {
     let ua = unit_alphabet(&hf, &gaps, &lf, !quick);
     let ub = unit_alphabet(&hf, &gaps, &lf, true);
     PairPlan {
-        ua: if quick { ua } else { ua.into_iter().step_by(2).collect() },
-        ub,
+        ua: if quick { ua } else { ua.into_iter().step_by(3).collect() },
+        ub: if quick { ub } else { ub.into_iter().step_by(2).collect() },
         e0s: if quick { vec![-1000, 0, 890] } else { vec![-1000, -999, -500, -1, 0, 1, 500, 889, 890] },
         deltas: if quick { dense_deltas(56, &[60, 64, 100, 105, 106, 107, 108, 109, 110, 150, 500, 1000, 1990]) } else { dense_deltas(110, &[150, 500, 1000, 1990]) },
         emin: -1000,
